@@ -32,7 +32,7 @@ theorem openMailbox_ok_facts {s s1 : Sys} {app mb side : String} {t : Time}
       | none =>
         simp [Chan.sidesOf, Chan.mbSidesOf, Chan.touch, Chan.insMbSide]
       | some r =>
-        obtain ⟨hr, h1, h2⟩ := Chan.findMbSide_some hs
+        obtain ⟨hr, h1, h2⟩ := Chan.findMbSide_some_mbx hs
         simp only [Chan.sidesOf, Chan.mbSidesOf, Chan.touch, List.mem_map, List.mem_filter, decide_eq_true_eq]
         exact ⟨r, ⟨hr, h1⟩, h2⟩
 
@@ -128,7 +128,7 @@ theorem claimNameplate_ok {s s1 : Sys} {app name side : String} {t : Time} {fres
 /-- the continuation of a claim when the mailbox then has more than two side rows: `crowded`,
     and the database is the one `open_mailbox` leaves -/
 theorem claimCont_crowded {s s1 : Sys} {app : String} {npid : Nat} {mb side : String} {t : Time}
-    {r : ClaimRes} (hids : s.db.mailboxes.Pairwise (fun a b => ¬ a.id = b.id)) (hmb : s.db.HasMb app mb)
+    {r : ClaimRes} (hids : s.db.mailboxes.Pairwise (fun a b => ¬ a.id = b.id)) (hmb : s.db.HasBox app mb)
     (hlen : ((s.db.openDb app mb side t).mbSidesOf mb).length > 2)
     (h : claimCont s app npid mb side t = (s1, r)) :
     r = .crowded ∧ s1.db = s.db.openDb app mb side t ∧ s1.conns = s.conns := by
@@ -154,7 +154,7 @@ theorem claimCont_crowded {s s1 : Sys} {app : String} {npid : Nat} {mb side : St
 theorem claimNameplate_crowded {s s1 : Sys} {app name side : String} {t : Time} {fresh : String}
     {r : ClaimRes} {row : Nameplate}
     (hids : s.db.mailboxes.Pairwise (fun a b => ¬ a.id = b.id))
-    (hrow : s.db.findNameplate app name = some row) (hmb : s.db.HasMb app row.mailbox)
+    (hrow : s.db.findNameplate app name = some row) (hmb : s.db.HasBox app row.mailbox)
     (hlen : ((s.db.openDb app row.mailbox side t).mbSidesOf row.mailbox).length > 2)
     (h : s.claimNameplate app name side t fresh = (s1, r)) :
     ((∃ r0, s.db.findNpSide row.id side = some r0 ∧ r0.claimed = false) → r = .reclaimed ∧ s1 = s) ∧
@@ -274,7 +274,7 @@ theorem claim_step {s : Sys} (hP : s.db.PInv) (hS : s.Synced)
       rw [hout]; simp [claimAnswer]
 
 /-- `claim_nameplate` never touches connection records -/
-theorem claimNameplate_conns (s : Sys) (app name side : String) (t : Time) (fresh : String) :
+theorem claimNameplate_conns_mbx (s : Sys) (app name side : String) (t : Time) (fresh : String) :
     (s.claimNameplate app name side t fresh).1.conns = s.conns := by
   have hC : ClosedG (fun s' : Sys => s'.conns = s.conns) :=
     { emit := fun _ _ h => h
